@@ -498,6 +498,8 @@ func runSCIONServer(ctx context.Context, log *slog.Logger, mtrcs *scionServerMet
 			scionLayer.Path, err = scionLayer.Path.Reverse()
 			if err != nil {
 				log.LogAttrs(ctx, slog.LevelInfo, "failed to reverse path", slog.Any("error", err))
+				// no reply is sent: remove the exchange recorded by handleRequest
+				updateTXTimestamp(clientID, rxt, &txt0)
 				continue
 			}
 			scionLayer.PathType = scionLayer.Path.Type()
@@ -522,6 +524,8 @@ func runSCIONServer(ctx context.Context, log *slog.Logger, mtrcs *scionServerMet
 				}
 				if !addedCookie {
 					log.LogAttrs(ctx, slog.LevelInfo, "failed to add at least one cookie")
+					// no reply is sent: remove the exchange recorded by handleRequest
+					updateTXTimestamp(clientID, rxt, &txt0)
 					continue
 				}
 
@@ -587,6 +591,8 @@ func runSCIONServer(ctx context.Context, log *slog.Logger, mtrcs *scionServerMet
 			n, err = conn.WriteToUDPAddrPort(buffer.Bytes(), lastHop)
 			if err != nil || n != len(buffer.Bytes()) {
 				log.LogAttrs(ctx, slog.LevelError, "failed to write packet", slog.Any("error", err))
+				// no reply was sent: remove the exchange recorded by handleRequest
+				updateTXTimestamp(clientID, rxt, &txt0)
 				continue
 			}
 			txt1, id, err := udp.ReadTXTimestamp(conn)
